@@ -336,10 +336,7 @@ func ruleSyncBeforeRename(e *Engine, r *Report, minInst int, pkgs ...string) {
 				return
 			}
 			n++
-			isSync := func(in ssa.Instruction) bool {
-				c, ok := in.(ssa.CallInstruction)
-				return ok && isIfaceInvoke(c, "Sync", "Sync", "Close", "Write")
-			}
+			isSync := e.throughHelpers(func(c ssa.CallInstruction) bool { return isIfaceInvoke(c, "Sync", "Sync", "Close", "Write") })
 			var from ssa.Instruction
 			for _, c := range creates {
 				if c.Parent() == fn {
